@@ -232,10 +232,6 @@ def make_grammar(sw, control_names, utf8=False):
         hn = A(N("uint"), C(L("<"), S, N("type"), S, L(">")))
         t2.append(C(L("#"), S, DIGIT, Opt(C(S, L("."), S, hn)), Opt(C(S, L("("), S, N("type"), S, L(")")))))
         t2.append(C(L("#"), S, L("("), S, N("type"), S, L(")")))
-    if on("F_tag_any_major"):
-        # relaxed reading (D_hi): the crate's tag_expr lets any major digit carry a
-        # head-number and a parenthesised content
-        t2.append(C(L("#"), DIGIT, Opt(C(L("."), headnum)), Opt(C(L("("), S, N("type"), S, L(")")))))
     g["type2"] = A(*t2)
 
     # ---- groups
